@@ -181,8 +181,14 @@ def targeted(language):
                     "function f(a = function g(b = function h() {}) {}) {}", "`${", "`a${b}c` f() {}", "f = (=>) => {", "a = ( ( => ) => {",
                     "function f(a): { x: number } {\n}\n", "f(a): number;", "class A { f(a): void; f(a) {} }"]
         if language == "Java":
+            # one Keyword.Namespace token spanning lines
+            out += ["import\nstatic a.b.C;\nclass A {\n  void f() {\n    g();\n  }\n}\n", "import\n  module x.y;\nclass B { void g() { } }\n",
+                    "import\n\n\nstatic q.R;\nclass C {\n  int h() {\n    return 1;\n  }\n}\n"]
             out += ["void f() throws {", "void f() throws A, B", "void f() throws A ; {", "new A() {", "record R(int a) {", "new", "record"]
         if language == "C#":
+            # one Name.Attribute token spanning lines (Pygments: '[' at line start up to the first ']')
+            out += ["[Route(\n    \"x\")]\npublic void F() {\n}\n", "[\nObsolete\n]\nvoid G() { }\n",
+                    "class A {\n  [Test,\n   Category(\"x\")]\n  void H() {\n    k();\n  }\n\n  [\n  Fact]\n  int I() {\n    return 2;\n  }\n}\n"]
             out += ["new A() {", "else if (a) {", "else if (", "void f() =>", "int P { get; set; }", "@\"", "$\"{"]
     return out
 
